@@ -89,3 +89,8 @@ def search_failing_input(ctx):
             if len(out) >= 3:
                 break
     return out
+
+
+def replay(case):
+    """Re-run the numeric statement oracle on the input stored in a replay file."""
+    return numeric.c02_oracle(case)
